@@ -1018,6 +1018,10 @@ func DecodeVarint(p []byte) (v uint64, n int, err error) {
 		b := uint64(p[i])
 		v |= (b & 0x7f) << shift
 		if (b & 0x80) == 0 {
+			// the 10th byte holds bit 63 only, anything more does not fit in 64 bits
+			if i == 9 && b > 1 {
+				return 0, 0, ErrValueOverflow
+			}
 			return v, i + 1, nil
 		}
 	}
